@@ -13,7 +13,7 @@ RULE = ("worker class {sync,gthread,gevent,eventlet} x bind spelling {numeric IP
         "(optionally preceded by TTIN/TTOU; two histories send the HUPs 0.05-0.3 s apart while workers boot slowly through a post_fork hook) at seeded "
         "times x config file rewritten before each HUP (workers changed, raw_env marker bumped) under a continuous stream of short "
         "requests on fresh connections plus one long gated request in flight across the first HUP, against a real master started from "
-        "the working tree. Oracle: no connect is ever refused/reset; every response that began is complete; with sync workers every "
+        "the working tree. Oracle: the master's listening sockets are the same kernel objects after the reloads; no connect is ever refused/reset; every response that began is complete; with sync workers every "
         "accepted connection is answered; the long request is answered in full by the pid that started it; after quiescence the master's "
         "children are exactly the newly configured number, none of them older than the last HUP, and every response carries the new "
         "marker. non-trivial = a request was in flight across a HUP; distinct by cell")
@@ -109,6 +109,23 @@ class Load(threading.Thread):
             time.sleep(0.005)
 
 
+def sock_inodes(pid):
+    """inodes of the sockets a process holds open (for the master: its listeners)"""
+    import os
+    out = set()
+    try:
+        for fd in os.listdir("/proc/%d/fd" % pid):
+            try:
+                t = os.readlink("/proc/%d/fd/%s" % (pid, fd))
+            except OSError:
+                continue
+            if t.startswith("socket:["):
+                out.add(t)
+    except OSError:
+        pass
+    return out
+
+
 def stable_workers(srv, limit):
     t0 = time.time()
     last, since = None, time.time()
@@ -163,6 +180,7 @@ def run_case(case):
             srv.signal(getattr(signal, "SIG" + s))
             time.sleep(0.4)
         stable_workers(srv, 6)
+        listeners_before = sock_inodes(srv.pid)
         load = Load(srv)
         load.start()
         time.sleep(0.3)
@@ -197,6 +215,10 @@ def run_case(case):
         load.stop = True
         load.join(10)
         # ---- verdicts
+        listeners_after = sock_inodes(srv.pid)
+        if listeners_before and renv.alive(srv.pid) and not listeners_before <= listeners_after:
+            V("listener-kept", "listening-socket-replaced-by-a-reload-that-kept-the-bind",
+              {"before": sorted(listeners_before), "after": sorted(listeners_after)}, "the same socket(s)")
         from vlib import ref_response
         r = ref_response.parse_response(ldata, 0, "GET") if ldata else None
         if r is None or not (r.ok and r.complete and r.status == 200 and b"gate-done" in r.body):
